@@ -136,7 +136,11 @@ class FixedSizeSample(base.MergeableMetric, base.HasAsAggFn):
     # in one-shot.
     result = []
     num_samples_orig = self._num_samples_reviewed
-    reservoir_new, num_samples_new = other.reservoir, other.num_samples_reviewed
+    # Samples from a copy so that the reservoir of `other` is left intact.
+    reservoir_new, num_samples_new = (
+        list(other.reservoir),
+        other.num_samples_reviewed,
+    )
     while len(result) < self.max_size and num_samples_orig + num_samples_new:
       thr_from_orig = num_samples_orig / (num_samples_orig + num_samples_new)
       if self._rng.uniform() < thr_from_orig:
